@@ -142,6 +142,36 @@ static inline void pairwise(const std::function<void(const Bytes&)>& emit) {
       }
 }
 
+// ---- WIDE: members / lengths around every head-width boundary, with the members really present ----
+static inline void put_counted(Bytes& o, unsigned mt, uint64_t n, int forced = -1) { ref::put_head(o, mt, n, forced); }
+static inline std::vector<Bytes> wide_items(bool big) {
+  std::vector<Bytes> v;
+  const size_t counts[] = {22, 23, 24, 25, 100, 255, 256, 257, 1000};
+  for (size_t n : counts) {
+    for (int forced : {-1, 2, 4}) {   // shortest head, and 2- / 4-byte count heads
+      if (forced >= 0 && n > 300) continue;
+      Bytes a; put_counted(a, 4, n, forced); for (size_t i = 0; i < n; i++) a.push_back((uint8_t)(i % 24)); v.push_back(a);
+      Bytes m; put_counted(m, 5, n, forced); for (size_t i = 0; i < n; i++) { m.push_back((uint8_t)(i % 24)); m.push_back(0xf6); } v.push_back(m);
+    }
+    Bytes ia = B({0x9f}); for (size_t i = 0; i < n; i++) { ia.push_back(0x18); ia.push_back((uint8_t)i); } ia.push_back(0xff); v.push_back(ia);
+    Bytes im = B({0xbf}); for (size_t i = 0; i < n; i++) { im.push_back(0x61); im.push_back((uint8_t)('a' + i % 26)); im.push_back(0x80); } im.push_back(0xff); v.push_back(im);
+    Bytes ib = B({0x5f}); for (size_t i = 0; i < n; i++) { ib.push_back(0x41); ib.push_back((uint8_t)i); } ib.push_back(0xff); v.push_back(ib);
+    Bytes it = B({0x7f}); for (size_t i = 0; i < n; i++) { it.push_back(0x61); it.push_back((uint8_t)('a' + i % 26)); } it.push_back(0xff); v.push_back(it);
+  }
+  std::vector<size_t> lens = {22, 23, 24, 25, 255, 256, 257, 1000};
+  if (big) { lens.push_back(65535); lens.push_back(65536); }
+  for (size_t n : lens) for (unsigned mt : {2u, 3u}) for (int forced : {-1, 4}) {
+    if (forced >= 0 && n > 300) continue;
+    Bytes s; put_counted(s, mt, n, forced); for (size_t i = 0; i < n; i++) s.push_back((uint8_t)(mt == 3 ? 'a' + i % 26 : i)); v.push_back(s);
+    Bytes c = B({(uint8_t)(mt == 2 ? 0x5f : 0x7f)}); c.insert(c.end(), s.begin(), s.end()); c.insert(c.end(), s.begin(), s.end()); c.push_back(0xff); v.push_back(c);
+    Bytes t = B({0xc1}); t.insert(t.end(), s.begin(), s.end()); v.push_back(t);
+  }
+  // nested wide: 30 arrays of 30, a map whose values are 24-element arrays
+  { Bytes a; put_counted(a, 4, 30); for (int i = 0; i < 30; i++) { put_counted(a, 4, 30); for (int j = 0; j < 30; j++) a.push_back((uint8_t)j % 24); } v.push_back(a); }
+  { Bytes m; put_counted(m, 5, 24); for (int i = 0; i < 24; i++) { m.push_back((uint8_t)i); put_counted(m, 4, 24); for (int j = 0; j < 24; j++) m.push_back(0xf5); } v.push_back(m); }
+  return v;
+}
+
 // ---- E3: single-edit neighbours ---------------------------------------------------------
 // Bytes used to overwrite a head's initial byte: every reserved / unsupported class and one
 // representative of every other kind.
